@@ -1,5 +1,6 @@
+\* narrow signed type (i8 i16 i32 scaled): every pair of bounds, reversed and near-limit included
 CONSTANTS BODY = "B"  TNEG = 8  TMAX = 8  CNEG = 1000  CMAX = 1000  BNEG = 8  BHI = 8
-          MAXELEMS = 16  MAXPEERS = 6  REVERSED = FALSE  NEARMAX = FALSE  WRAPPED = TRUE
+          MAXELEMS = 16  MAXPEERS = 6  FIX_REVERSED = TRUE  FIX_CLAMP_START = TRUE  WRAPPED = TRUE
 SPECIFICATION Spec
 INVARIANTS C15_Range
 CHECK_DEADLOCK FALSE
